@@ -1,6 +1,948 @@
 package main
 
-// runReplay instantiates a typed builder for the function of a failed obligation, if one exists.
+import (
+	"bytes"
+	"context"
+	"encoding/json"
+	"fmt"
+	"go/types"
+	"os"
+	"os/exec"
+	"path/filepath"
+	"strings"
+	"time"
+)
+
+// ---------------------------------------------------------------------------
+// Model values: a second solver run asks for the value of every input leaf.
+
+type valuePlan struct {
+	terms []string
+}
+
+func (p *valuePlan) ask(t Term) string {
+	p.terms = append(p.terms, t.S)
+	return t.S
+}
+
+const maxReplayElems = 24
+
+// planValue registers the leaves needed to rebuild a Go value of type t from term v.
+func (c *FnCtx) planValue(p *valuePlan, v Term, t types.Type, depth int) {
+	t = types.Unalias(t)
+	switch tt := t.Underlying().(type) {
+	case *types.Basic:
+		p.ask(v)
+	case *types.Struct:
+		if v.Sort == SInt {
+			return
+		}
+		info := c.g.u.structInfoOf(v.Sort)
+		if info == nil {
+			return
+		}
+		for i := 0; i < tt.NumFields() && i < len(info.fields); i++ {
+			c.planValue(p, c.g.u.field(v, i), tt.Field(i).Type(), depth)
+		}
+	case *types.Slice:
+		p.ask(sLen(v))
+		p.ask(sBase(v))
+		if depth <= 0 {
+			return
+		}
+		key, hs := c.g.elemHeapKey(tt.Elem())
+		h := c.heap(c.entry, key, hs)
+		for i := 0; i < maxReplayElems; i++ {
+			c.planValue(p, sel(sel(h, sBase(v)), add(sOff(v), intLit(int64(i)))), tt.Elem(), depth-1)
+		}
+	case *types.Pointer:
+		p.ask(v)
+		if depth <= 0 {
+			return
+		}
+		if _, isArr := tt.Elem().Underlying().(*types.Array); isArr {
+			return
+		}
+		key, hs := c.g.heapKeyFor(tt.Elem())
+		h := c.heap(c.entry, key, hs)
+		c.planValue(p, sel(h, v), tt.Elem(), depth-1)
+	case *types.Array:
+		for i := int64(0); i < tt.Len() && i < maxReplayElems; i++ {
+			c.planValue(p, sel(v, intLit(i)), tt.Elem(), depth)
+		}
+	default:
+		if v.Sort == SInt || v.Sort == SBool {
+			p.ask(v)
+		}
+	}
+}
+
+type goBuilder struct {
+	c       *FnCtx
+	vals    map[string]string
+	imports map[string]string // path -> name
+	pkg     *types.Package
+	partial []string
+}
+
+func (b *goBuilder) qual(p *types.Package) string {
+	if p == b.pkg {
+		return ""
+	}
+	b.imports[p.Path()] = p.Name()
+	return p.Name()
+}
+
+func (b *goBuilder) typeStr(t types.Type) string { return types.TypeString(t, b.qual) }
+
+func (b *goBuilder) intVal(t Term) (string, bool) {
+	v, ok := b.vals[t.S]
+	if !ok {
+		return "0", false
+	}
+	v = strings.TrimSpace(v)
+	if strings.HasPrefix(v, "(-") {
+		v = "-" + strings.TrimSpace(strings.TrimSuffix(strings.TrimPrefix(v, "(-"), ")"))
+	}
+	return v, true
+}
+
+// goValue renders a Go expression of type t for the model value of v.
+func (b *goBuilder) goValue(v Term, t types.Type, depth int) string {
+	t0 := t
+	t = types.Unalias(t)
+	c := b.c
+	switch tt := t.Underlying().(type) {
+	case *types.Basic:
+		s, _ := b.intVal(v)
+		switch {
+		case tt.Info()&types.IsBoolean != 0:
+			if s == "true" {
+				return b.typeStr(t0) + "(true)"
+			}
+			return b.typeStr(t0) + "(false)"
+		case tt.Info()&types.IsInteger != 0:
+			return fmt.Sprintf("%s(%s)", b.typeStr(t0), s)
+		case tt.Info()&types.IsString != 0:
+			b.partial = append(b.partial, "string value not reconstructed")
+			return b.typeStr(t0) + "(\"\")"
+		}
+		return fmt.Sprintf("%s(0)", b.typeStr(t0))
+	case *types.Struct:
+		info := c.g.u.structInfoOf(v.Sort)
+		if info == nil {
+			return b.typeStr(t0) + "{}"
+		}
+		var fs []string
+		for i := 0; i < tt.NumFields() && i < len(info.fields); i++ {
+			f := tt.Field(i)
+			if !f.Exported() && f.Pkg() != b.pkg {
+				b.partial = append(b.partial, "unexported field "+f.Name()+" of another package left zero")
+				continue
+			}
+			fs = append(fs, fmt.Sprintf("%s: %s", f.Name(), b.goValue(c.g.u.field(v, i), f.Type(), depth)))
+		}
+		return fmt.Sprintf("%s{%s}", b.typeStr(t0), strings.Join(fs, ", "))
+	case *types.Slice:
+		ln, _ := b.intVal(sLen(v))
+		base, _ := b.intVal(sBase(v))
+		if base == "0" {
+			return fmt.Sprintf("%s(nil)", b.typeStr(t0))
+		}
+		var n int
+		fmt.Sscanf(ln, "%d", &n)
+		if n > maxReplayElems {
+			b.partial = append(b.partial, fmt.Sprintf("slice of length %d truncated to %d known elements (rest zero)", n, maxReplayElems))
+		}
+		if n > 1<<20 {
+			b.partial = append(b.partial, "huge slice skipped")
+			n = maxReplayElems
+		}
+		key, hs := c.g.elemHeapKey(tt.Elem())
+		h := c.heap(c.entry, key, hs)
+		var elems []string
+		for i := 0; i < n && i < maxReplayElems; i++ {
+			if depth <= 0 {
+				break
+			}
+			elems = append(elems, b.goValue(sel(sel(h, sBase(v)), add(sOff(v), intLit(int64(i)))), tt.Elem(), depth-1))
+		}
+		lit := fmt.Sprintf("%s{%s}", b.typeStr(t0), strings.Join(elems, ", "))
+		if n > len(elems) {
+			return fmt.Sprintf("append(%s, make(%s, %d)...)", lit, b.typeStr(t0), n-len(elems))
+		}
+		return lit
+	case *types.Pointer:
+		p, _ := b.intVal(v)
+		if p == "0" || depth <= 0 {
+			return fmt.Sprintf("(%s)(nil)", b.typeStr(t0))
+		}
+		if _, isArr := tt.Elem().Underlying().(*types.Array); isArr {
+			return fmt.Sprintf("new(%s)", b.typeStr(tt.Elem()))
+		}
+		key, hs := c.g.heapKeyFor(tt.Elem())
+		h := c.heap(c.entry, key, hs)
+		inner := b.goValue(sel(h, v), tt.Elem(), depth-1)
+		return fmt.Sprintf("func() %s { x := %s; return &x }()", b.typeStr(t0), inner)
+	case *types.Array:
+		var elems []string
+		for i := int64(0); i < tt.Len() && i < maxReplayElems; i++ {
+			elems = append(elems, b.goValue(sel(v, intLit(i)), tt.Elem(), depth))
+		}
+		return fmt.Sprintf("%s{%s}", b.typeStr(t0), strings.Join(elems, ", "))
+	case *types.Interface:
+		b.partial = append(b.partial, "interface value left nil")
+		return "nil"
+	}
+	b.partial = append(b.partial, "value of type "+t.String()+" left zero")
+	return fmt.Sprintf("*new(%s)", b.typeStr(t0))
+}
+
+// fetchValues re-runs the winning solver with get-value for the planned terms.
+func fetchValues(v *Verdict, plan *valuePlan, u *Universe) (map[string]string, error) {
+	if len(plan.terms) == 0 {
+		return map[string]string{}, nil
+	}
+	data, err := os.ReadFile(v.File)
+	if err != nil {
+		return nil, err
+	}
+	text := string(data)
+	text = strings.Replace(text, "(check-sat)\n(get-model)\n", "", 1)
+	// declarations for symbols that only the plan mentions (entry heaps touched by planning)
+	extra := u.prelude(text + strings.Join(plan.terms, " "))
+	_ = extra
+	var b strings.Builder
+	// rebuild: header + full prelude covering plan symbols + body assertions
+	lines := strings.SplitN(text, "(set-logic ALL)\n", 2)
+	b.WriteString("(set-option :produce-models true)\n(set-logic ALL)\n")
+	b.WriteString(u.prelude(v.Obl.Body + strings.Join(plan.terms, " ")))
+	b.WriteString(v.Obl.Body)
+	_ = lines
+	b.WriteString("(check-sat)\n(get-value (")
+	for _, t := range plan.terms {
+		b.WriteString(t)
+		b.WriteString("\n")
+	}
+	b.WriteString("))\n")
+	f := v.File + ".values.smt2"
+	if err := os.WriteFile(f, []byte(b.String()), 0o644); err != nil {
+		return nil, err
+	}
+	ctx, cancel := context.WithTimeout(context.Background(), 60*time.Second)
+	defer cancel()
+	order := []string{v.Solver, "z3-new", "z3", "cvc5"}
+	for _, name := range order {
+		for _, sd := range solvers {
+			if sd.name != name {
+				continue
+			}
+			res, out := runSolver(ctx, sd, f, 30)
+			if res != "sat" {
+				continue
+			}
+			k := strings.Index(out, "\n")
+			vals := parseValuePairs(out[k+1:])
+			if len(vals) > 0 {
+				return vals, nil
+			}
+		}
+	}
+	return nil, fmt.Errorf("no solver reproduced the model")
+}
+
+// parseValuePairs parses "((term value) (term value) ...)" keyed by the normalised term text.
+func parseValuePairs(s string) map[string]string {
+	out := map[string]string{}
+	s = strings.TrimSpace(s)
+	if !strings.HasPrefix(s, "(") {
+		return out
+	}
+	// top-level list
+	i := 1
+	for i < len(s) {
+		for i < len(s) && (s[i] == ' ' || s[i] == '\n') {
+			i++
+		}
+		if i >= len(s) || s[i] != '(' {
+			break
+		}
+		// pair
+		j := matchParen(s, i)
+		pair := s[i+1 : j]
+		// first sexpr = term
+		k := sexprEnd(pair, 0)
+		term := normSpace(pair[:k])
+		val := normSpace(pair[k:])
+		out[term] = val
+		i = j + 1
+	}
+	return out
+}
+
+func matchParen(s string, i int) int {
+	depth := 0
+	for j := i; j < len(s); j++ {
+		if s[j] == '(' {
+			depth++
+		} else if s[j] == ')' {
+			depth--
+			if depth == 0 {
+				return j
+			}
+		}
+	}
+	return len(s) - 1
+}
+
+func sexprEnd(s string, i int) int {
+	for i < len(s) && (s[i] == ' ' || s[i] == '\n') {
+		i++
+	}
+	if i < len(s) && s[i] == '(' {
+		return matchParen(s, i) + 1
+	}
+	for i < len(s) && s[i] != ' ' && s[i] != '\n' {
+		i++
+	}
+	return i
+}
+
+func normSpace(s string) string { return strings.Join(strings.Fields(s), " ") }
+
+// ---------------------------------------------------------------------------
+// Spec -> Go translation (dynamic helpers; integers are *big.Int)
+
+type goTrans struct {
+	c       *FnCtx
+	names   map[string]string // spec identifier -> Go expression
+	olds    map[string]string // spec identifier -> Go expression holding the pre-call copy
+	notes   []string
+	imports map[string]string
+	tmp     int
+}
+
+const replayHelpers = `
+func vI(x any) any {
+	v := reflect.ValueOf(x)
+	switch v.Kind() {
+	case reflect.Int, reflect.Int8, reflect.Int16, reflect.Int32, reflect.Int64:
+		return big.NewInt(v.Int())
+	case reflect.Uint, reflect.Uint8, reflect.Uint16, reflect.Uint32, reflect.Uint64, reflect.Uintptr:
+		return new(big.Int).SetUint64(v.Uint())
+	}
+	return x
+}
+func vBig(a any) *big.Int {
+	if b, ok := a.(*big.Int); ok {
+		return b
+	}
+	if b, ok := vI(a).(*big.Int); ok {
+		return b
+	}
+	panic("verif replay: integer expected")
+}
+func vNil(a any) bool {
+	if a == nil {
+		return true
+	}
+	v := reflect.ValueOf(a)
+	switch v.Kind() {
+	case reflect.Ptr, reflect.Slice, reflect.Map, reflect.Interface, reflect.Func, reflect.Chan:
+		return v.IsNil()
+	}
+	return false
+}
+func vEq(a, b any) bool {
+	if b == nil {
+		return vNil(a)
+	}
+	if a == nil {
+		return vNil(b)
+	}
+	x, ok1 := a.(*big.Int)
+	y, ok2 := b.(*big.Int)
+	if ok1 && ok2 {
+		return x.Cmp(y) == 0
+	}
+	if ok1 || ok2 {
+		return vBig(a).Cmp(vBig(b)) == 0
+	}
+	return reflect.DeepEqual(a, b)
+}
+func vLt(a, b any) bool  { return vBig(a).Cmp(vBig(b)) < 0 }
+func vLe(a, b any) bool  { return vBig(a).Cmp(vBig(b)) <= 0 }
+func vAdd(a, b any) any  { return new(big.Int).Add(vBig(a), vBig(b)) }
+func vSub(a, b any) any  { return new(big.Int).Sub(vBig(a), vBig(b)) }
+func vMul(a, b any) any  { return new(big.Int).Mul(vBig(a), vBig(b)) }
+func vQuo(a, b any) any  { return new(big.Int).Quo(vBig(a), vBig(b)) }
+func vRem(a, b any) any  { return new(big.Int).Rem(vBig(a), vBig(b)) }
+func vDiv(a, b any) any  { return new(big.Int).Div(vBig(a), vBig(b)) }
+func vMod(a, b any) any  { return new(big.Int).Mod(vBig(a), vBig(b)) }
+func vNeg(a any) any     { return new(big.Int).Neg(vBig(a)) }
+func vInt(a any) int     { return int(vBig(a).Int64()) }
+func vAll(lo, hi any, f func(i int) bool) bool {
+	l, h := vBig(lo).Int64(), vBig(hi).Int64()
+	if h-l > 1<<16 {
+		h = l + 1<<16
+	}
+	for i := l; i < h; i++ {
+		if !f(int(i)) {
+			return false
+		}
+	}
+	return true
+}
+func vAny(lo, hi any, f func(i int) bool) bool {
+	return !vAll(lo, hi, func(i int) bool { return !f(i) })
+}
+var _ = errors.Is
+`
+
+// raw: plain Go expression (for call arguments)
+func (g *goTrans) raw(e Expr) (string, bool) {
+	switch x := e.(type) {
+	case *EInt:
+		return x.Val, true
+	case *EBool:
+		return fmt.Sprint(x.Val), true
+	case *ENil:
+		return "nil", true
+	case *EStr:
+		return fmt.Sprintf("%q", x.Val), true
+	case *EIdent:
+		if n, ok := g.names[x.Name]; ok {
+			return n, true
+		}
+		if cd, ok := g.c.g.contracts.Consts[x.Name]; ok {
+			return g.raw(cd.E)
+		}
+		return x.Name, true
+	case *ESel:
+		b, ok := g.raw(x.X)
+		return b + "." + x.Name, ok
+	case *EIndex:
+		b, ok1 := g.raw(x.X)
+		i, ok2 := g.raw(x.I)
+		return b + "[" + i + "]", ok1 && ok2
+	case *ESlice:
+		b, ok := g.raw(x.X)
+		lo, hi := "", ""
+		if x.Lo != nil {
+			lo, _ = g.raw(x.Lo)
+		}
+		if x.Hi != nil {
+			hi, _ = g.raw(x.Hi)
+		}
+		return b + "[" + lo + ":" + hi + "]", ok
+	case *EBinary:
+		a, ok1 := g.raw(x.X)
+		b, ok2 := g.raw(x.Y)
+		switch x.Op {
+		case "+", "-", "*", "/", "%", "==", "!=", "<", "<=", ">", ">=", "&&", "||":
+			return "(" + a + " " + x.Op + " " + b + ")", ok1 && ok2
+		}
+		return "", false
+	case *EUnary:
+		a, ok := g.raw(x.X)
+		return "(" + x.Op + a + ")", ok
+	case *ECall:
+		var as []string
+		ok := true
+		for _, a := range x.Args {
+			s, o := g.raw(a)
+			ok = ok && o
+			as = append(as, s)
+		}
+		f, o := g.raw(x.Fun)
+		return f + "(" + strings.Join(as, ", ") + ")", ok && o
+	}
+	return "", false
+}
+
+// dyn: expression evaluated with the dynamic helpers; returns Go source of type any (or bool for
+// propositions when asBool).
+func (g *goTrans) val(e Expr) string {
+	switch x := e.(type) {
+	case *EInt:
+		return fmt.Sprintf("func() any { b, _ := new(big.Int).SetString(%q, 0); return b }()", x.Val)
+	case *EBool:
+		return fmt.Sprint(x.Val)
+	case *ENil:
+		return "nil"
+	case *EStr:
+		return fmt.Sprintf("%q", x.Val)
+	case *EIdent:
+		if cd, ok := g.c.g.contracts.Consts[x.Name]; ok {
+			if _, bound := g.names[x.Name]; !bound {
+				return g.val(cd.E)
+			}
+		}
+		r, _ := g.raw(x)
+		return "vI(" + r + ")"
+	case *ESel, *EIndex, *ESlice:
+		r, _ := g.raw(e)
+		return "vI(" + r + ")"
+	case *EOld:
+		sub := &goTrans{c: g.c, names: map[string]string{}, olds: g.olds, imports: g.imports}
+		for k, v := range g.names {
+			sub.names[k] = v
+		}
+		for k, v := range g.olds {
+			sub.names[k] = v
+		}
+		s := sub.val(x.X)
+		g.notes = append(g.notes, sub.notes...)
+		return s
+	case *EUnary:
+		if x.Op == "!" {
+			return "(!" + g.boolE(x.X) + ")"
+		}
+		return "vNeg(" + g.val(x.X) + ")"
+	case *ECond:
+		return fmt.Sprintf("func() any { if %s { return %s }; return %s }()", g.boolE(x.C), g.val(x.A), g.val(x.B))
+	case *EBinary:
+		switch x.Op {
+		case "+":
+			return "vAdd(" + g.val(x.X) + ", " + g.val(x.Y) + ")"
+		case "-":
+			return "vSub(" + g.val(x.X) + ", " + g.val(x.Y) + ")"
+		case "*":
+			return "vMul(" + g.val(x.X) + ", " + g.val(x.Y) + ")"
+		case "/":
+			return "vQuo(" + g.val(x.X) + ", " + g.val(x.Y) + ")"
+		case "%":
+			return "vRem(" + g.val(x.X) + ", " + g.val(x.Y) + ")"
+		}
+		return g.boolE(e)
+	case *EQuant:
+		return g.boolE(e)
+	case *ECall:
+		if id, ok := x.Fun.(*EIdent); ok {
+			switch id.Name {
+			case "len", "cap":
+				r, _ := g.raw(x.Args[0])
+				return "vI(" + id.Name + "(" + r + "))"
+			case "mod":
+				return "vMod(" + g.val(x.Args[0]) + ", " + g.val(x.Args[1]) + ")"
+			case "div":
+				return "vDiv(" + g.val(x.Args[0]) + ", " + g.val(x.Args[1]) + ")"
+			case "has":
+				m, _ := g.raw(x.Args[0])
+				k, _ := g.raw(x.Args[1])
+				return fmt.Sprintf("func() bool { _, ok := %s[%s]; return ok }()", m, k)
+			case "is":
+				a, _ := g.raw(x.Args[0])
+				b, _ := g.raw(x.Args[1])
+				return "errors.Is(" + a + ", " + b + ")"
+			case "isFresh", "sameArray":
+				g.notes = append(g.notes, id.Name+" is not executable: taken as true")
+				return "true"
+			case "bytesEq":
+				a, _ := g.raw(x.Args[0])
+				b, _ := g.raw(x.Args[1])
+				return "reflect.DeepEqual([]byte(" + a + "), []byte(" + b + "))"
+			}
+			if pf, ok := g.c.g.contracts.Pures[id.Name]; ok && pf.Body != nil && !pf.Rec {
+				// inline: bind parameters to temporaries
+				sub := &goTrans{c: g.c, names: map[string]string{}, olds: g.olds, imports: g.imports}
+				for k, v := range g.names {
+					sub.names[k] = v
+				}
+				var binds []string
+				for i, p := range pf.Params {
+					g.tmp++
+					tn := fmt.Sprintf("sp%d_%s", g.tmp, p.Name)
+					a, ok := g.raw(x.Args[i])
+					if !ok {
+						a = "vInt(" + g.val(x.Args[i]) + ")"
+					} else if isIntTypeName(p.Type) {
+						a = "vInt(" + g.val(x.Args[i]) + ")"
+					}
+					binds = append(binds, fmt.Sprintf("%s := %s; _ = %s", tn, a, tn))
+					sub.names[p.Name] = tn
+				}
+				sub.tmp = g.tmp + 100
+				body := sub.val(pf.Body)
+				g.notes = append(g.notes, sub.notes...)
+				return fmt.Sprintf("func() any { %s; return %s }()", strings.Join(binds, "; "), body)
+			}
+		}
+		r, ok := g.raw(e)
+		if !ok {
+			g.notes = append(g.notes, "call not executable: "+e.exprString())
+			return "true"
+		}
+		return "vI(" + r + ")"
+	}
+	return "true"
+}
+
+func isIntTypeName(s string) bool {
+	switch s {
+	case "int", "int64", "uint64", "uint", "int32", "uint32", "uint16", "uint8", "byte":
+		return true
+	}
+	return false
+}
+
+func (g *goTrans) boolE(e Expr) string {
+	switch x := e.(type) {
+	case *EBool:
+		return fmt.Sprint(x.Val)
+	case *EUnary:
+		if x.Op == "!" {
+			return "(!" + g.boolE(x.X) + ")"
+		}
+	case *EBinary:
+		switch x.Op {
+		case "&&":
+			return "(" + g.boolE(x.X) + " && " + g.boolE(x.Y) + ")"
+		case "||":
+			return "(" + g.boolE(x.X) + " || " + g.boolE(x.Y) + ")"
+		case "==>":
+			return "(!" + g.boolE(x.X) + " || " + g.boolE(x.Y) + ")"
+		case "<==>":
+			return "(" + g.boolE(x.X) + " == " + g.boolE(x.Y) + ")"
+		case "==":
+			return "vEq(" + g.val(x.X) + ", " + g.val(x.Y) + ")"
+		case "!=":
+			return "(!vEq(" + g.val(x.X) + ", " + g.val(x.Y) + "))"
+		case "<":
+			return "vLt(" + g.val(x.X) + ", " + g.val(x.Y) + ")"
+		case "<=":
+			return "vLe(" + g.val(x.X) + ", " + g.val(x.Y) + ")"
+		case ">":
+			return "vLt(" + g.val(x.Y) + ", " + g.val(x.X) + ")"
+		case ">=":
+			return "vLe(" + g.val(x.Y) + ", " + g.val(x.X) + ")"
+		}
+	case *EQuant:
+		if len(x.Vars) == 1 {
+			if lo, hi, body, ok := quantBounds(x); ok {
+				sub := &goTrans{c: g.c, names: map[string]string{}, olds: g.olds, imports: g.imports, tmp: g.tmp + 1000}
+				for k, v := range g.names {
+					sub.names[k] = v
+				}
+				g.tmp++
+				iv := fmt.Sprintf("q%d_%s", g.tmp, x.Vars[0].Name)
+				sub.names[x.Vars[0].Name] = iv
+				fn := "vAll"
+				if !x.Forall {
+					fn = "vAny"
+				}
+				s := fmt.Sprintf("%s(%s, %s, func(%s int) bool { return %s })", fn, g.val(lo), g.val(hi), iv, sub.boolE(body))
+				g.notes = append(g.notes, sub.notes...)
+				return s
+			}
+		}
+		g.notes = append(g.notes, "quantifier not executable: taken as true: "+e.exprString())
+		return "true"
+	case *ECond:
+		return fmt.Sprintf("func() bool { if %s { return %s }; return %s }()", g.boolE(x.C), g.boolE(x.A), g.boolE(x.B))
+	}
+	// a boolean-valued leaf
+	v := g.val(e)
+	if strings.HasPrefix(v, "vI(") {
+		r, _ := g.raw(e)
+		return "bool(" + r + ")"
+	}
+	return v
+}
+
+// quantBounds recognises "forall i :: lo <= i && i < hi ==> body" (and the exists analogue with &&).
+func quantBounds(q *EQuant) (lo, hi, body Expr, ok bool) {
+	name := q.Vars[0].Name
+	var guard Expr
+	switch b := q.Body.(type) {
+	case *EBinary:
+		if q.Forall && b.Op == "==>" {
+			guard, body = b.X, b.Y
+		} else if !q.Forall && b.Op == "&&" {
+			guard, body = b.X, b.Y
+		}
+	}
+	if guard == nil {
+		return
+	}
+	var conj []Expr
+	var flat func(e Expr)
+	flat = func(e Expr) {
+		if b, isB := e.(*EBinary); isB && b.Op == "&&" {
+			flat(b.X)
+			flat(b.Y)
+			return
+		}
+		conj = append(conj, e)
+	}
+	flat(guard)
+	var rest []Expr
+	for _, c := range conj {
+		b, isB := c.(*EBinary)
+		if isB {
+			if id, isID := b.Y.(*EIdent); isID && id.Name == name && b.Op == "<=" && lo == nil {
+				lo = b.X
+				continue
+			}
+			if id, isID := b.X.(*EIdent); isID && id.Name == name && b.Op == "<" && hi == nil {
+				hi = b.Y
+				continue
+			}
+			if id, isID := b.X.(*EIdent); isID && id.Name == name && b.Op == ">=" && lo == nil {
+				lo = b.Y
+				continue
+			}
+		}
+		rest = append(rest, c)
+	}
+	if lo == nil || hi == nil {
+		return nil, nil, nil, false
+	}
+	for _, r := range rest {
+		if q.Forall {
+			body = &EBinary{"==>", r, body}
+		} else {
+			body = &EBinary{"&&", r, body}
+		}
+	}
+	return lo, hi, body, true
+}
+
+// ---------------------------------------------------------------------------
+// runReplay: build the test, run it on the real code with -overlay.
+
 func runReplay(o *options, g *Gen, v *Verdict, model map[string]string, outDir string) (bool, string) {
-	return false, "no typed builder registered for this function"
+	c := v.Obl.fc
+	if c == nil {
+		return false, "no function context"
+	}
+	if c.lemma != nil {
+		return c.replayLemma(o, v, outDir)
+	}
+	if c.fn == nil {
+		return false, "no function"
+	}
+	return c.replayFunc(o, v, outDir)
+}
+
+func (c *FnCtx) replayFunc(o *options, v *Verdict, outDir string) (bool, string) {
+	fn := c.fn
+	plan := &valuePlan{}
+	for _, p := range fn.Params {
+		c.planValue(plan, c.regs[p].t, p.Type(), 2)
+	}
+	vals, err := fetchValues(v, plan, c.g.u)
+	if err != nil {
+		return false, "model values: " + err.Error()
+	}
+	b := &goBuilder{c: c, vals: vals, imports: map[string]string{}, pkg: fn.Pkg.Pkg}
+	var decl strings.Builder
+	tr := &goTrans{c: c, names: map[string]string{}, olds: map[string]string{}, imports: b.imports}
+	var argNames []string
+	for i, p := range fn.Params {
+		name := p.Name()
+		if name == "" || name == "_" {
+			name = fmt.Sprintf("arg%d", i)
+		}
+		gv := "p_" + name
+		fmt.Fprintf(&decl, "\t%s := %s\n\t_ = %s\n", gv, b.goValue(c.regs[p].t, p.Type(), 2), gv)
+		tr.names[p.Name()] = gv
+		if _, isSlice := p.Type().Underlying().(*types.Slice); isSlice {
+			fmt.Fprintf(&decl, "\told_%s := append(%s(nil), %s...)\n\t_ = old_%s\n", name, b.typeStr(p.Type()), gv, name)
+			tr.olds[p.Name()] = "old_" + name
+		}
+		argNames = append(argNames, gv)
+	}
+	// call
+	sig := fn.Signature
+	var call string
+	if sig.Recv() != nil {
+		call = fmt.Sprintf("%s.%s(%s)", argNames[0], fn.Name(), strings.Join(argNames[1:], ", "))
+	} else if fn.Parent() != nil {
+		return false, "closures cannot be replayed directly"
+	} else {
+		call = fmt.Sprintf("%s(%s)", fn.Name(), strings.Join(argNames, ", "))
+	}
+	if sig.Variadic() {
+		call = strings.TrimSuffix(call, ")") + "...)"
+	}
+	var resNames []string
+	for i := 0; i < sig.Results().Len(); i++ {
+		rn := fmt.Sprintf("res%d", i)
+		resNames = append(resNames, rn)
+		rv := sig.Results().At(i)
+		tr.names[fmt.Sprintf("result%d", i)] = rn
+		if i == 0 {
+			tr.names["result"] = rn
+		}
+		if rv.Name() != "" && rv.Name() != "_" {
+			tr.names[rv.Name()] = rn
+		}
+		if i == sig.Results().Len()-1 && isErrorType(rv.Type()) {
+			tr.names["err"] = rn
+		}
+	}
+	var body strings.Builder
+	body.WriteString(decl.String())
+	// preconditions must hold for the model to be a legal input
+	for _, cl := range c.spec.Requires {
+		fmt.Fprintf(&body, "\tif !(%s) {\n\t\tt.Skip(\"VERIF-REPLAY: model does not satisfy requires: %s\")\n\t}\n", tr.boolE(cl.E), escapeQ(cl.Text))
+	}
+	if len(resNames) > 0 {
+		fmt.Fprintf(&body, "\t%s := %s\n", strings.Join(resNames, ", "), call)
+		for _, r := range resNames {
+			fmt.Fprintf(&body, "\t_ = %s\n", r)
+		}
+	} else {
+		fmt.Fprintf(&body, "\t%s\n", call)
+	}
+	switch v.Obl.Kind {
+	case "post":
+		// which clause: name is ...#post:<k>@retN
+		var k int
+		if i := strings.Index(v.Obl.Name, "#post:"); i >= 0 {
+			fmt.Sscanf(v.Obl.Name[i+6:], "%d", &k)
+		}
+		if k < 1 || k > len(c.spec.Ensures) {
+			return false, "cannot identify the violated clause"
+		}
+		cl := c.spec.Ensures[k-1]
+		fmt.Fprintf(&body, "\tif !(%s) {\n\t\tt.Fatalf(\"VERIF-REPLAY VIOLATED: ensures %s\")\n\t}\n", tr.boolE(cl.E), escapeQ(cl.Text))
+	case "nopanic", "bounds", "nil", "div0", "typeassert", "makeslice":
+		// the expected failure is a panic, caught by the deferred recover
+	default:
+		return false, "obligation kind " + v.Obl.Kind + " has no executable form"
+	}
+	return c.runGoTest(o, v, outDir, fn.Pkg.Pkg, body.String(), b, tr)
+}
+
+func escapeQ(s string) string {
+	s = strings.ReplaceAll(s, "\\", "\\\\")
+	s = strings.ReplaceAll(s, "\"", "\\\"")
+	return strings.ReplaceAll(s, "%", "%%")
+}
+
+func (c *FnCtx) replayLemma(o *options, v *Verdict, outDir string) (bool, string) {
+	l := c.lemma
+	plan := &valuePlan{}
+	pkg := c.g.typesPkg(l.Pkg)
+	for _, lv := range l.Vars {
+		tv := c.lemmaVars[lv.Name]
+		c.planValue(plan, tv.t, tv.typ, 2)
+	}
+	vals, err := fetchValues(v, plan, c.g.u)
+	if err != nil {
+		return false, "model values: " + err.Error()
+	}
+	b := &goBuilder{c: c, vals: vals, imports: map[string]string{}, pkg: pkg}
+	tr := &goTrans{c: c, names: map[string]string{}, olds: map[string]string{}, imports: b.imports}
+	var body strings.Builder
+	for _, lv := range l.Vars {
+		tv := c.lemmaVars[lv.Name]
+		fmt.Fprintf(&body, "\t%s := %s\n\t_ = %s\n", lv.Name, b.goValue(tv.t, tv.typ, 2), lv.Name)
+	}
+	nAssert := 0
+	for _, s := range l.Stmts {
+		switch s.Kind {
+		case "assume":
+			fmt.Fprintf(&body, "\tif !(%s) {\n\t\tt.Skip(\"VERIF-REPLAY: real code does not meet lemma assumption: %s\")\n\t}\n", tr.boolE(s.E), escapeQ(s.Text))
+		case "assert":
+			nAssert++
+			fmt.Fprintf(&body, "\tif !(%s) {\n\t\tt.Fatalf(\"VERIF-REPLAY VIOLATED: lemma %s assert %d: %s\")\n\t}\n", tr.boolE(s.E), l.Name, nAssert, escapeQ(s.Text))
+		case "let":
+			r, ok := tr.raw(s.E)
+			if !ok {
+				return false, "lemma call not executable: " + s.Text
+			}
+			fmt.Fprintf(&body, "\t%s := %s\n", strings.Join(s.Names, ", "), r)
+			for _, n := range s.Names {
+				if n != "_" {
+					fmt.Fprintf(&body, "\t_ = %s\n", n)
+				}
+			}
+		case "var":
+			return false, "lemma with havocked variables cannot be replayed"
+		}
+	}
+	return c.runGoTest(o, v, outDir, pkg, body.String(), b, tr)
+}
+
+func (c *FnCtx) runGoTest(o *options, v *Verdict, outDir string, pkg *types.Package, body string, b *goBuilder, tr *goTrans) (bool, string) {
+	var src strings.Builder
+	fmt.Fprintf(&src, "package %s\n\nimport (\n\t\"errors\"\n\t\"math/big\"\n\t\"reflect\"\n\t\"testing\"\n", pkg.Name())
+	for path, name := range b.imports {
+		if path == "errors" || path == "math/big" || path == "reflect" || path == "testing" {
+			continue
+		}
+		fmt.Fprintf(&src, "\t%s %q\n", name, path)
+	}
+	src.WriteString(")\n")
+	src.WriteString(replayHelpers)
+	fmt.Fprintf(&src, "\n// replay of obligation %s\nfunc TestVerifReplay(t *testing.T) {\n", v.Obl.Name)
+	src.WriteString("\tdefer func() {\n\t\tif r := recover(); r != nil {\n\t\t\tt.Fatalf(\"VERIF-REPLAY PANIC: %v\", r)\n\t\t}\n\t}()\n")
+	src.WriteString(body)
+	src.WriteString("}\n")
+	goFile := filepath.Join(outDir, "replay_"+sanitizeFile(v.Obl.Name)+"_test.go")
+	if err := os.WriteFile(goFile, []byte(src.String()), 0o644); err != nil {
+		return false, err.Error()
+	}
+	// package directory
+	rel := strings.TrimPrefix(pkg.Path(), "github.com/celestiaorg/celestia-node")
+	rel = strings.TrimPrefix(rel, "/")
+	pkgDir := filepath.Join(o.repo, rel)
+	target := filepath.Join(pkgDir, "zz_verif_replay_test.go")
+	ov := map[string]any{"Replace": map[string]string{target: goFile}}
+	ovData, _ := json.Marshal(ov)
+	ovFile := goFile + ".overlay.json"
+	_ = os.WriteFile(ovFile, ovData, 0o644)
+	ctx, cancel := context.WithTimeout(context.Background(), 10*time.Minute)
+	defer cancel()
+	cmd := exec.CommandContext(ctx, "/usr/bin/go", "test", "-overlay", ovFile, "-vet=off", "-count=1", "-timeout", "120s", "-run", "^TestVerifReplay$", "./"+rel)
+	cmd.Dir = o.repo
+	cmd.Env = replayEnv()
+	var out bytes.Buffer
+	cmd.Stdout = &out
+	cmd.Stderr = &out
+	err := cmd.Run()
+	text := out.String()
+	log := fmt.Sprintf("test file: %s\ncommand: (cd %s && go test -overlay %s -vet=off -count=1 -timeout 120s -run '^TestVerifReplay$' ./%s)\n%s", goFile, o.repo, ovFile, rel, tail(text, 30))
+	notes := append(append([]string{}, b.partial...), tr.notes...)
+	if len(notes) > 0 {
+		log += "\nreplay notes: " + strings.Join(notes, "; ")
+	}
+	if err != nil && (strings.Contains(text, "VERIF-REPLAY VIOLATED") || strings.Contains(text, "VERIF-REPLAY PANIC")) {
+		return true, log
+	}
+	return false, log
+}
+
+// replayEnv: the plain environment (auto toolchain) without our offline overrides that break the
+// toolchain switch inside /repo.
+func replayEnv() []string {
+	var env []string
+	for _, e := range os.Environ() {
+		if strings.HasPrefix(e, "GOTOOLCHAIN=") || strings.HasPrefix(e, "GOSUMDB=") || strings.HasPrefix(e, "GOFLAGS=") || strings.HasPrefix(e, "PATH=") {
+			continue
+		}
+		env = append(env, e)
+	}
+	path := os.Getenv("PATH")
+	// drop our toolchain dir from PATH so /usr/bin/go's own switching logic is used
+	var parts []string
+	for _, p := range strings.Split(path, ":") {
+		if strings.Contains(p, "golang.org/toolchain@") {
+			continue
+		}
+		parts = append(parts, p)
+	}
+	env = append(env, "PATH="+strings.Join(parts, ":"), "GOFLAGS=-mod=mod", "GOPROXY=off")
+	return env
+}
+
+func tail(s string, n int) string {
+	lines := strings.Split(strings.TrimSpace(s), "\n")
+	if len(lines) > n {
+		lines = lines[len(lines)-n:]
+	}
+	return strings.Join(lines, "\n")
 }
